@@ -6,6 +6,8 @@ package main
 
 import (
 	"encoding/base64"
+	"encoding/json"
+	"unicode/utf8"
 	"fmt"
 	"strings"
 
@@ -66,6 +68,45 @@ func codecHost(addr string) {
 	}
 }
 
+// jsonStringCase: encoding/json's string codec against Model/Json.v.  s is used twice:
+// as a Go string that is marshalled (JQ) and as the raw text between the quotes of
+// a JSON string that is unmarshalled (JU).
+func jsonStringCase(s string) {
+	id := run.NewID()
+	q, err := json.Marshal(s)
+	quoted := "ERR"
+	if err == nil && len(q) >= 2 {
+		quoted = common.Hex(string(q[1 : len(q)-1]))
+	}
+	var back string
+	un := "ERR"
+	if e := json.Unmarshal([]byte("\""+s+"\""), &back); e == nil {
+		un = "OK:" + common.Hex(back)
+	}
+	run.Case(id, "J "+common.Hex(s), "JQ "+quoted+" JU "+un)
+	run.Count("codec:json-string")
+	if un != "ERR" {
+		run.Nontrivial("J|" + s)
+	}
+	// oracle: the round trip law itself, on the real codec
+	if utf8.ValidString(s) && err == nil {
+		var rt string
+		if e := json.Unmarshal(q, &rt); e != nil || rt != s {
+			run.OracleFail(id, "json-string-roundtrip", fmt.Sprintf("json round trip of %q gives %q %v", s, rt, e), map[string]string{"kind": "J", "hex": common.Hex(s)})
+		}
+	}
+}
+
+func genJSONString(r *common.Rand) string {
+	var b strings.Builder
+	for n := r.Intn(10); n > 0; n-- {
+		b.WriteString(common.Pick(r, []string{"a", "Z", "0", " ", "\\", "\\\\", "\\u", "\\u00", "\\u0041", "\\ud83d", "\\udd11", "\\ud800", "\\udc00", "\\uD83D\\uDD11",
+			"\\n", "\\t", "\\/", "\\b", "\\f", "\\r", "\\\"", "\\x", "\\U", "\"", "\n", "\t", "\x00", "\x1f", "\x7f", "<", ">", "&", "\u2028", "\u2029", "é", "中", "\U0001F511",
+			"\xff", "\xc0\x80", "\xed\xa0\x80", "\x80", "\xe2\x80", "\xf4\x90\x80\x80", "\ufffd", "\U0010ffff", "1f", "d8", "\\u202", "\\u2028", "\\u003c", "\\uFFFD", "\\uffff"}))
+	}
+	return b.String()
+}
+
 func mutateB64(r *common.Rand, s string) string {
 	bs := []byte(s)
 	for n := 1 + r.Intn(2); n > 0; n-- {
@@ -93,6 +134,9 @@ func mutateB64(r *common.Rand, s string) string {
 }
 
 func runCodec(r *common.Rand) {
+	if wedged >= 3 {
+		return
+	}
 	for _, u := range partPool {
 		for _, p := range partPool[:12] {
 			codecEncode(u, p)
@@ -119,6 +163,16 @@ func runCodec(r *common.Rand) {
 	for _, a := range []string{"", "=", "==", "====", "Og==", "Og", "Og=", "Oh==", "OjE=", "OjF=", "\n", "Og==\n", "O\ng=\r=", "Og==Og==", "dTpw", "dTpw\n\n", " dTpw", "dTpw ", "dTp", "dT", "d"} {
 		codecDecode(a)
 	}
+	for _, p := range partPool {
+		jsonStringCase(p)
+	}
+	for i := 0; i < run.Scale(3000, 100000); i++ {
+		if r.Intn(4) == 0 {
+			jsonStringCase(genPart(r))
+		} else {
+			jsonStringCase(genJSONString(r))
+		}
+	}
 	for i := 0; i < run.Scale(1500, 50000); i++ {
 		a := genAddr(r)
 		if r.Intn(3) == 0 {
@@ -136,6 +190,8 @@ func replayCodec(c map[string]string) bool {
 		codecDecode(c["auth"])
 	case "HOST":
 		codecHost(c["addr"])
+	case "J":
+		jsonStringCase(common.UnHex(c["hex"]))
 	default:
 		return false
 	}
